@@ -1,4 +1,5 @@
 import Qvnt.Props.C03
+import Qvnt.Props.Code.C03
 open Qvnt
 #print axioms C03_product
 #print axioms C03_involutive
@@ -9,3 +10,4 @@ open Qvnt
 #print axioms C03_inverse
 #print axioms C03_mul_dgr
 #print axioms C03_adjoint_matrix
+#print axioms C03_code_dgr
